@@ -49,6 +49,10 @@ def is_only_root(vs: list[OTelEvent], p: int) -> bool:
 def listed_child(job: dict[str, OTelEvent], cs: list[str], S: set[str]) -> bool:
     return any(job[c].event_type in S for c in cs)
 
+def group_ok(g: list[OTelEvent], m: dict[str, str]) -> bool:
+    return ((len(g) == 1 and g[0].event_type not in m)
+            or (g[0].event_type in m and all(e.event_type in m and m[e.event_type] == m[g[0].event_type] for e in g)))
+
 def sorted_by_start(g: list[OTelEvent]) -> bool:
     return all(g[a].start_timestamp <= g[b].start_timestamp for a in range(len(g)) for b in range(a, len(g)))
 
@@ -85,8 +89,37 @@ CONTRACTS = {
         "hide": ["sorted_by_start"],
         "pure": True,
     },
+    "group_events_using_async_information": {
+        "ensures": {
+            # prior information: siblings mapped to one group run in parallel, all others on their own
+            "no_empty_group": "all(len(g) > 0 for g in result)",
+            "homogeneous": "all(group_ok(g, async_event_types) for g in result)",
+            "one_group_per_id": "all(not (result[a][0].event_type in async_event_types and result[b][0].event_type in async_event_types "
+                                "and async_event_types[result[a][0].event_type] == async_event_types[result[b][0].event_type]) "
+                                "for a in range(len(result)) for b in range(a + 1, len(result)))",
+            "covers": "all(any(count(g, events[p]) >= 1 for g in result) for p in range(len(events)))",
+        },
+        "prelude": ["idx_app_rev"],
+        "loops": {0: {"index": "i", "invariant": {
+            "keys": "all(async_event_types[t] in async_groups for t in async_event_types)",
+            "buckets": "all(all(e.event_type in async_event_types and async_event_types[e.event_type] == k for e in async_groups[k]) for k in async_groups)",
+            "singles": "all(len(g) == 1 and g[0].event_type not in async_event_types for g in non_async_groups)",
+            "covered": "all((events[p].event_type in async_event_types and count(async_groups[async_event_types[events[p].event_type]], events[p]) >= 1) "
+                       "or (events[p].event_type not in async_event_types and any(count(g, events[p]) >= 1 for g in non_async_groups)) for p in range(i))",
+        }, "hints_end": ["implies(events[i - 1].event_type not in async_event_types, count(non_async_groups[len(non_async_groups) - 1], events[i - 1]) >= 1)"],
+           "hints_after": [
+            "all(implies(events[p].event_type in async_event_types, async_event_types[events[p].event_type] in async_groups) for p in range(len(events)))",
+            "all(implies(events[p].event_type in async_event_types, any(count(g, events[p]) >= 1 for g in async_groups.values())) for p in range(len(events)))",
+            "all(implies(events[p].event_type in async_event_types, any(count(g, events[p]) >= 1 for g in [x for x in async_groups.values() if x])) for p in range(len(events)))",
+            "all(implies(events[p].event_type not in async_event_types, any(count(g, events[p]) >= 1 for g in non_async_groups)) for p in range(len(events)))",
+            "all(implies(events[p].event_type in async_event_types, any(count(g, events[p]) >= 1 for g in [x for x in async_groups.values() if x] + non_async_groups)) for p in range(len(events)))",
+            "all(implies(events[p].event_type not in async_event_types, any(count(g, events[p]) >= 1 for g in [x for x in async_groups.values() if x] + non_async_groups)) for p in range(len(events)))",
+        ]}},
+        "pure": True,
+    },
     "get_root_event_from_event_id_to_event_map": {
-        "raises": {"ValueError": "not any(is_only_root(list(event_id_to_event_map.values()), p) for p in range(len(event_id_to_event_map)))"},
+        # (the `unique` clause below carries "exactly one"; this one only fixes when the function gives up)
+        "raises": {"ValueError": "len([e for e in event_id_to_event_map.values() if e.parent_event_id is None]) != 1"},
         "ensures": {
             "is_root": "result.parent_event_id is None",
             "member": "any(result is e for e in event_id_to_event_map.values())",
@@ -131,6 +164,7 @@ LEMMA_MAXEND_ATTAINED = {
     "requires": ["len(g) > 0"],
     "ensures": "0 <= argmaxend(g) < len(g) and g[argmaxend(g)].end_timestamp == maxend(g)",
     "induction": "g",
+    "hints": ["use maxend_attained(g[:-1]) if len(g) >= 2 else True"],
     "triggers": ["argmaxend(g)"],
 }
 LEMMA_MAXEND_APP = {
@@ -138,13 +172,14 @@ LEMMA_MAXEND_APP = {
     "forall": {"a": "list[OTelEvent]", "b": "list[OTelEvent]"},
     "requires": ["len(a) > 0", "len(b) > 0"],
     "ensures": "maxend(a + b) == max(maxend(a), maxend(b))",
-    "hints": ["(a + b)[argmaxend(a)].end_timestamp <= maxend(a + b)",
+    "hints": ["use maxend_attained(a)", "use maxend_attained(b)", "use maxend_attained(a + b)",
+              "(a + b)[argmaxend(a)].end_timestamp <= maxend(a + b)",
               "(a + b)[len(a) + argmaxend(b)].end_timestamp <= maxend(a + b)"],
     "explicit": True,
 }
 
 ORDER = ["order_groups_by_start_timestamp", LEMMA_MAXEND_UPPER, LEMMA_MAXEND_ATTAINED, LEMMA_MAXEND_APP,
-         "sequence_groups_of_otel_events_asynchronously", "get_root_event_from_event_id_to_event_map",
+         "sequence_groups_of_otel_events_asynchronously", "group_events_using_async_information", "get_root_event_from_event_id_to_event_map",
          "update_event_type_based_on_children"]
 
 
